@@ -311,13 +311,17 @@ def reset_cer(case):
     evalimpl.set_cer(rc=rc, hints=h, fc=fc, packages=dict(case["packages"]))
 
 
-def validation_cases(ctx, n_trees, kind="any", unknown=0.05, flags=(True, False)):
-    """yields dicts: cer, lines, soll, result, cache, term (Gallina val_case)"""
+def validation_cases(ctx, n_trees, kind="any", unknown=0.05, flags=(True, False), revisit=0.0):
+    """yields dicts: cer, lines, soll, result, cache, term (Gallina val_case).
+    revisit: probability that a tree is the previous tree again, validated under another content evaluation result (the same expression strings
+    meet other content in the same process)"""
     out = []
+    lines = None
     for _ in range(n_trees):
         rc, h, fc = setup_cer(ctx.rng, unknown)
         cache = ExprCache()
-        lines = random_ahb(ctx.rng, kind)
+        if lines is None or revisit <= 0 or ctx.rng.random() >= revisit:
+            lines = random_ahb(ctx.rng, kind)
         lt = "[" + "; ".join(node_term(n, cache) for n in lines) + "]"
         inv = {m for m in cache.inv.values() if m}
         kinds = {"G": 0, "S": 0, "F": 0, "P": 0}
